@@ -90,3 +90,18 @@ Proof.
   split; [repeat constructor; cbn; intuition lia|].
   intros k Hk. cbn in Hk. unfold NN. cbn. intuition lia.
 Qed.
+
+(* peak size: for EVERY enumeration order of the contractions, the running total that
+   peak_size(order) maintains ends at exactly the size of the result (every input and every
+   intermediate is released exactly once), and the reported peak is at least the inputs' total *)
+Theorem C03_peak_running_total_telescopes : forall n sl l r order,
+  Permutation.Permutation order (traverse_dfs (Node l r)) ->
+  fst (fold_left (peak_step n sl) order (leaves_total n sl (Node l r), leaves_total n sl (Node l r)))
+  = node_size n sl true (Node l r).
+Proof. exact peak_final_total. Qed.
+Print Assumptions C03_peak_running_total_telescopes.
+
+Theorem C03_peak_ge_inputs : forall n sl t order,
+  (leaves_total n sl t <= peak_size_order n sl t order)%Z.
+Proof. exact peak_ge_inputs. Qed.
+Print Assumptions C03_peak_ge_inputs.
